@@ -62,7 +62,7 @@ let kind_str = function
 let parse_plan (parts : ostring list) : ((ckind * nat) * fault) list =
   List.map (fun p -> match split '.' p with
     | [k; occ; f] -> ((kind_of k, nat_of_int (ios occ)),
-                      (match f with "eb" -> FErrBefore | "ea" -> FErrAfter | "ll" -> FLease | "cr" -> FCrash | _ -> failwith "fault"))
+                      (match f with "eb" -> FErrBefore | "ea" -> FErrAfter | "ll" -> FLease | "cr" -> FCrash | "sr" -> FStale | _ -> failwith "fault"))
     | _ -> failwith "plan") parts
 
 let ctlop_of = function 0 -> OpPause | 1 -> OpResume | 2 -> OpCancel | _ -> OpDeleteData
@@ -80,6 +80,7 @@ let parse_op (op : ostring) : eop =
      | ["adv"; d] -> OAdvance (zi (ios d))
      | ["st"; pu] -> (match split '/' pu with [i; u] -> OStep (zi (ios i), unit_of u, plan) | _ -> failwith "st")
      | ["crash"; i] -> OCrash (zi (ios i))
+     | ["lose"; pu] -> (match split '/' pu with [i; u] -> OLose (zi (ios i), unit_of u) | _ -> failwith "lose")
      | ["rw"; u; pos] -> ORewind (unit_of u, nat_of_int (ios pos))
      | ["dup"; i] -> ODup (nat_of_int (ios i))
      | _ -> failwith ("op " ^ op))
